@@ -9,10 +9,18 @@
 // coordinate (as reported by the library: positionAt / ticks / 0..n-1) lies in [start,end] resp. [start,end), by
 // linear scan; unspecified axes in full; start > end, an empty region or a region that contains an axis index
 // outside the data -> throws and returns nothing.  Compared with DataView::dataExtent() and the full content.
+// Start and end vectors of DIFFERENT lengths (appended cases): every (Ls, Le), 0 <= Ls, Le <= rank, Ls != Le (rank 1
+// and 2: every configuration; rank 3: a subset), plus configurations whose sampled axes have NEGATIVE offsets (and
+// positive ones larger than the axis is long).  A dimension for which only the start is given runs from the start to
+// the LAST coordinate of the data (Inclusive: last element included; Exclusive: the statement is silent on the very
+// last element, so the first index is asserted and the count must be the full one or one less); a dimension for
+// which only the end is given starts at the FIRST coordinate of the data; a dimension with neither is taken in full.
 //
 // Part (b), request grid + histories (E1): DataView on a 3x4 and a 2x3x2 Double array: every window inside the
 // array (and every (offset,count) violating the constructor's checks), for every window every request
-// (count 0..n+1, offset 0..n per axis: inside, touching, crossing the window edge; wrong rank; offset omitted)
+// (count 0..w+1 per axis, w = window extent; offset 0..N per axis, N = ARRAY extent: inside, touching, crossing the
+// window edge, starting on the far edge and starting strictly BEHIND it -- inside the array but outside the window,
+// the requests whose origin + offset + count still fits the array included; wrong rank; offset omitted)
 // through getData and setData, raw pointer interface and typed containers (boost::multi_array), and for the 3x4
 // array all PAIRS of requests in sequence (write, then read).  Reference model: a plain copy of the array.
 // A read returns exactly the cells at window origin + offset; a write changes exactly those cells (the WHOLE
@@ -71,10 +79,10 @@ static const char *KNAME[] = {"sampled", "range", "set", "dataframe"};
 
 struct Desc {
     Kind kind;
-    double interval; int offk;   // sampled: interval, offset in {absent, 0.25, 1.5}
+    double interval; int offk;   // sampled: interval, offset OFFS[offk] (0: absent)
     int variant;                 // range: 0 equidistant, 1 irregular with negative start; set: 0 without labels, 1 with labels
 };
-static const double OFFS[] = {0.0, 0.25, 1.5};
+static const double OFFS[] = {0.0, 0.25, 1.5, /* only in the configurations appended later: */ -0.75, -3.0, 7.0};
 static std::string dname(const Desc &d) {
     switch (d.kind) {
     case K_SAMPLED: return "sampled(interval=" + dstr(d.interval) + ",offset=" + (d.offk ? dstr(OFFS[d.offk]) : std::string("absent")) + ")";
@@ -249,20 +257,30 @@ static std::string relclass(const Axis &ax, double s, double e) {
 struct Ref {
     bool thr = false; std::string why; int axis = -1;   // expected: throws (why, first axis responsible)
     Idx off, cnt;                                       // else: the block
+    std::vector<char> loose;                            // per axis of the block: count cnt or cnt-1 are both accepted (cnt-1 == 0: an error too)
+    std::vector<double> es, ee;                         // per axis the effective start / end (given, or first / last coordinate of the data)
 };
+// s and e may have different lengths: axis k has its start given iff k < s.size(), its end given iff k < e.size()
 static Ref reference(const std::vector<Axis> &axes, const std::vector<double> &s, const std::vector<double> &e, bool inclusive) {
     Ref r;
-    if (s.size() > axes.size()) { r.thr = true; r.why = "more entries than dimensions"; return r; }
+    if (s.size() > axes.size() || e.size() > axes.size()) { r.thr = true; r.why = "more entries than dimensions"; return r; }
+    r.es.assign(axes.size(), 0.0); r.ee.assign(axes.size(), 0.0);
     for (size_t k = 0; k < axes.size(); k++) {
         const Axis &ax = axes[k];
-        if (k >= s.size()) { r.off.push_back(0); r.cnt.push_back(ax.n); continue; }   // unspecified: in full
-        if (s[k] > e[k]) { if (!r.thr) { r.thr = true; r.why = "start > end"; r.axis = (int)k; } continue; }
+        const bool hs = k < s.size(), he = k < e.size();
+        if (!hs && !he) { r.off.push_back(0); r.cnt.push_back(ax.n); r.loose.push_back(0); continue; }   // unspecified: in full
+        // only the end given: from the FIRST coordinate of the data; only the start given: up to the LAST coordinate of
+        // the data.  Whether that last element itself belongs to an Exclusive region is not asserted (loose).
+        const double sk = hs ? s[k] : ax.c[0], ek = he ? e[k] : ax.c[ax.n - 1];
+        const bool incl = inclusive || !he, lo = !he && !inclusive;
+        r.es[k] = sk; r.ee[k] = ek;
+        if (sk > ek) { if (!r.thr) { r.thr = true; r.why = "start > end"; r.axis = (int)k; } continue; }
         std::vector<size_t> S;
         for (size_t i = 0; i < ax.c.size(); i++)                                       // linear scan
-            if (s[k] <= ax.c[i] && (inclusive ? ax.c[i] <= e[k] : ax.c[i] < e[k])) S.push_back(i);
+            if (sk <= ax.c[i] && (incl ? ax.c[i] <= ek : ax.c[i] < ek)) S.push_back(i);
         if (S.empty()) { if (!r.thr) { r.thr = true; r.why = "empty region"; r.axis = (int)k; } continue; }
         if (S.back() >= ax.n) { if (!r.thr) { r.thr = true; r.why = "region leaves the data"; r.axis = (int)k; } continue; }
-        r.off.push_back(S.front()); r.cnt.push_back(S.size());
+        r.off.push_back(S.front()); r.cnt.push_back(S.size()); r.loose.push_back(lo ? 1 : 0);
     }
     return r;
 }
@@ -331,16 +349,24 @@ struct SliceCtx {
 
 static void check_slice(SliceCtx &cx, const std::vector<double> &s, const std::vector<double> &e, bool with_units_too) {
     const std::vector<Axis> &axes = *cx.axes;
-    const size_t rank = axes.size(), L = s.size();
+    const size_t rank = axes.size(), Ls = s.size(), Le = e.size(), L = std::max(Ls, Le), Lmin = std::min(Ls, Le);
     const bool inclusive = cx.mode == 0;
     const std::string mode = inclusive ? "Inclusive" : "Exclusive";
     Ref ref = reference(axes, s, e, inclusive);
     Outcome o = run_slice(*cx.da, rank, s, e, nullptr, cx.mode);
     auto ctx = [&]() { return cname(*cx.cfg) + "; dataSlice(start=" + dvec(s) + ", end=" + dvec(e) + ", units={}, " + MODE[cx.mode] + ") [start=" + vf::jvecd(s) + " end=" + vf::jvecd(e) + "]"; };
-    std::string lclass = L > rank ? "more start/end entries than dimensions" : L < rank ? "fewer start/end entries than dimensions" : "one start/end entry per dimension";
-    auto expect = [&]() { return ref.thr ? "throws (" + ref.why + (ref.axis >= 0 ? " on axis " + std::to_string(ref.axis) : "") + ")" : "block offset " + istr(ref.off) + " count " + istr(ref.cnt); };
-    vf::distinct("outcomes", "slice|" + cx.kinds + "|L=" + std::to_string(L) + "|" + mode + "|" + (ref.thr ? ref.why : "region") + "|" + (o.thrown ? o.exc : "view"));
+    std::string lclass = L > rank ? "more start/end entries than dimensions" : Ls != Le ? "start and end vectors of different lengths" : L < rank ? "fewer start/end entries than dimensions" : "one start/end entry per dimension";
+    // how axis k is specified
+    auto given = [&](size_t k) { return k < Lmin ? "" : k < Ls ? "only the start given (region runs to the last coordinate of the data)" : k < Le ? "only the end given (region starts at the first coordinate of the data)" : "not specified"; };
+    auto expect = [&]() {
+        if (ref.thr) return "throws (" + ref.why + (ref.axis >= 0 ? " on axis " + std::to_string(ref.axis) + ((size_t)ref.axis >= Lmin ? std::string(", ") + given(ref.axis) : "") : "") + ")";
+        std::string x = "block offset " + istr(ref.off) + " count " + istr(ref.cnt);
+        for (size_t k = 0; k < ref.loose.size(); k++) if (ref.loose[k]) x += " (axis " + std::to_string(k) + ": count " + std::to_string(ref.cnt[k]) + " or " + std::to_string(ref.cnt[k] - 1) + ")";
+        return x;
+    };
+    vf::distinct("outcomes", "slice|" + cx.kinds + "|L=" + (Ls == Le ? std::to_string(L) : std::to_string(Ls) + "/" + std::to_string(Le)) + "|" + mode + "|" + (ref.thr ? ref.why : "region") + "|" + (o.thrown ? o.exc : "view"));
     if (ref.thr) vf::count("slices_expected_to_throw"); else vf::count("slices_expected_region");
+    if (Ls != Le) vf::count("slices_start_end_of_different_lengths");
 
     if (!o.defect.empty()) {
         vf::violation("C17|dataSlice|" + lclass + "|returned view is readable and has the array's rank and type|" + o.defect.substr(0, o.defect.find(':')), ctx() + ": " + ostr(o));
@@ -348,33 +374,46 @@ static void check_slice(SliceCtx &cx, const std::vector<double> &s, const std::v
         std::string ic = mode + ", " + lclass;
         if (ref.axis >= 0) {
             const Axis &ax = axes[ref.axis];
-            ic = mode + ", " + relclass(ax, s[ref.axis], e[ref.axis]);
+            ic = mode + ", " + relclass(ax, ref.es[ref.axis], ref.ee[ref.axis]);   // effective start / end (given or first / last coordinate)
             if (ref.why == "region leaves the data") ic += std::string(", ") + KNAME[ax.d.kind] + " axis";
         }
         vf::violation("C17|dataSlice|" + ic + "|" + ref.why + " raises an error|a view is returned", ctx() + ": got " + ostr(o) + ", expected " + expect());
     } else if (!ref.thr && o.thrown) {
-        vf::violation("C17|dataSlice|" + mode + ", " + lclass + "|a region inside the data is returned|" + o.exc, ctx() + ": got " + ostr(o) + ", expected " + expect());
+        // Exclusive, only the start given and the last element is the only candidate: whether it belongs to the region is not asserted
+        bool tolerated = false;
+        for (size_t k = 0; k < rank; k++) if (ref.loose[k] && ref.cnt[k] == 1) tolerated = true;
+        if (tolerated) vf::count("slices_not_asserted_exclusive_start_only_on_last_element");
+        else vf::violation("C17|dataSlice|" + mode + ", " + lclass + "|a region inside the data is returned|" + o.exc, ctx() + ": got " + ostr(o) + ", expected " + expect());
     } else if (!ref.thr) {
         Idx goff;
         if (!derive_block(cx.cfg->ext, o, goff)) {
             vf::violation("C17|dataSlice|" + mode + ", " + lclass + "|content of the view is the addressed block of the array|content is not a block of the array", ctx() + ": got " + ostr(o) + ", expected " + expect());
-        } else if (goff != ref.off || o.ext != ref.cnt) {
-            size_t k = 0;
-            while (goff[k] == ref.off[k] && o.ext[k] == ref.cnt[k]) k++;
+        } else {
+          auto axis_ok = [&](size_t k) { return goff[k] == ref.off[k] && (o.ext[k] == ref.cnt[k] || (ref.loose[k] && o.ext[k] + 1 == ref.cnt[k])); };
+          size_t k = 0;
+          while (k < rank && axis_ok(k)) k++;
+          if (k < rank) {
             const Axis &ax = axes[k];
             long gs = (long)goff[k], ge = (long)(goff[k] + o.ext[k]) - 1, ws = (long)ref.off[k], we = (long)(ref.off[k] + ref.cnt[k]) - 1;
             std::string dev;
             if (gs != ws) dev += gs > ws ? "start index too large" : "start index too small";
             if (ge != we) dev += std::string(dev.empty() ? "" : ", ") + (ge > we ? "end index too large" : "end index too small");
             std::string got = "block offset " + istr(goff) + " count " + istr(o.ext);
-            if (k >= L) {
+            if (k >= Lmin && k < L) {
+                const bool only_start = k < Ls;
+                const double p = only_start ? s[k] : e[k];
+                vf::violation("C17|dataSlice|" + std::string(KNAME[ax.d.kind]) + " axis, " + mode + (only_start ? ", only the start given, start " : ", only the end given, end ") + pclass(ax, p) + "|" +
+                                  (only_start ? "region runs from the start to the last coordinate of the data" : "region runs from the first coordinate of the data to the end") + "|" + dev,
+                              ctx() + ": axis " + std::to_string(k) + " (" + dname(ax.d) + ", coordinates " + dvec(ax.c) + ", data extent " + std::to_string(ax.n) + ") " + given(k) + "; got " + got + ", expected " + expect());
+            } else if (k >= L) {
                 if (gs == ws && ge == we - 1) dev = "last element of the unspecified dimension dropped";
-                vf::violation("C17|dataSlice|fewer start/end entries than dimensions, " + mode + "|unspecified dimension returned in full|" + dev,
+                vf::violation("C17|dataSlice|" + std::string(Ls != Le ? "start and end vectors of different lengths" : "fewer start/end entries than dimensions") + ", " + mode + "|unspecified dimension returned in full|" + dev,
                               ctx() + ": axis " + std::to_string(k) + " (" + dname(ax.d) + ", extent " + std::to_string(ax.n) + ") is not specified; got " + got + ", expected " + expect());
             } else {
                 vf::violation("C17|dataSlice|" + std::string(KNAME[ax.d.kind]) + " axis, " + mode + ", " + relclass(ax, s[k], e[k]) + "|exactly the elements with coordinate in the interval|" + dev,
                               ctx() + ": axis " + std::to_string(k) + " (" + dname(ax.d) + ", coordinates " + dvec(ax.c) + ", data extent " + std::to_string(ax.n) + "); got " + got + ", expected " + expect());
             }
+          }
         }
     }
     if (cx.samples < 2 && !ref.thr && L > 0 && cx.ci % 37 == 0) {
@@ -395,8 +434,56 @@ static void check_slice(SliceCtx &cx, const std::vector<double> &s, const std::v
     }
 }
 
+// single candidates for the rank-3 plans: first coordinate, a midpoint, last coordinate (more: below the first, beyond the last)
+static std::vector<double> singles_three(const Axis &ax, bool more) {
+    double h = step_of(ax);
+    size_t k = ax.n / 2;
+    std::vector<double> c;
+    c.push_back(ax.c[0]); c.push_back(k + 1 < ax.n ? ax.c[k] + (ax.c[k + 1] - ax.c[k]) / 2 : ax.c[k] + h / 2); c.push_back(ax.c[ax.n - 1]);
+    if (more) { c.push_back(ax.c[0] - 1.0); c.push_back(ax.c[ax.n - 1] + 3 * h); }
+    uniq(c);
+    return c;
+}
+
+// start and end vectors of different lengths: every (Ls, Le) with 0 <= Ls, Le <= rank, Ls != Le.  Axes below both
+// lengths get (start,end) pairs, the axes between the two lengths get single positions (only their start resp. only
+// their end is given), the rest is unspecified.
+static void mixed_lengths(SliceCtx &cx, int rank_plan, bool thorough, bool units_too) {
+    const std::vector<Axis> &axes = *cx.axes;
+    const size_t rank = axes.size();
+    std::vector<Pairs> pp; std::vector<std::vector<double>> ss;
+    for (const Axis &ax : axes) {
+        pp.push_back(rank_plan == 1 ? pairs_full(ax) : rank_plan == 2 ? (thorough ? pairs_reduced(ax) : pairs_three(ax, true)) : pairs_three(ax, rank_plan == 4));
+        ss.push_back(rank_plan == 1 ? cands_full(ax) : rank_plan == 2 ? cands_reduced(ax) : singles_three(ax, rank_plan == 4));
+    }
+    for (size_t Ls = 0; Ls <= rank; Ls++) for (size_t Le = 0; Le <= rank; Le++) {
+        if (Ls == Le) continue;
+        const size_t lo = std::min(Ls, Le), hi = std::max(Ls, Le);
+        Idx lim, cur(hi, 0);
+        for (size_t k = 0; k < hi; k++) lim.push_back(k < lo ? pp[k].size() : ss[k].size());
+        do {
+            std::vector<double> s, e;
+            for (size_t k = 0; k < hi; k++) {
+                if (k < lo) { s.push_back(pp[k][cur[k]].first); e.push_back(pp[k][cur[k]].second); }
+                else if (k < Ls) s.push_back(ss[k][cur[k]]);
+                else e.push_back(ss[k][cur[k]]);
+            }
+            check_slice(cx, s, e, units_too);
+        } while (next(cur, lim));
+        if (vf::deadline_hit()) return;
+    }
+    // one of the two vectors longer than the rank: must be rejected
+    std::vector<double> s, e;
+    for (const Axis &ax : axes) { s.push_back(ax.c[0]); e.push_back(ax.c[ax.n - 1]); }
+    s.push_back(0.0);
+    check_slice(cx, s, e, false);
+    s.pop_back(); e.push_back(1.0);
+    check_slice(cx, s, e, false);
+}
+
 // one case: one array configuration, one mode; start/end vectors of every length 0..rank+1
-static void slice_case(Block &b, const Config &cfg, int mode, long ci, int rank_plan) {
+// (mixed: the start and end vectors of different lengths instead)
+static void slice_case(Block &b, const Config &cfg, int mode, long ci, int rank_plan, bool mixed = false, bool thorough = false) {
     std::vector<Axis> axes; std::vector<std::string> frames;
     std::string name = "a" + std::to_string(ci);
     DataArray da = make_array(b, name, cfg, axes, frames);
@@ -413,6 +500,7 @@ static void slice_case(Block &b, const Config &cfg, int mode, long ci, int rank_
         for (const Axis &ax : axes) cx.kinds += std::string(cx.kinds.empty() ? "" : ",") + KNAME[ax.d.kind];
         const size_t rank = axes.size();
         const bool units_too = mode != 2;   // the default-argument call is made without units only
+        if (mixed) { mixed_lengths(cx, rank_plan, thorough, units_too); b.deleteDataArray(name); for (const std::string &fn : frames) b.deleteDataFrame(fn); return; }
         std::vector<Pairs> pp;
         for (const Axis &ax : axes) pp.push_back(rank_plan == 1 ? pairs_full(ax) : rank_plan == 2 ? pairs_reduced(ax) : pairs_three(ax, rank_plan == 4));
         for (size_t L = 0; L <= rank; L++) {
@@ -453,10 +541,13 @@ static void slice_case(Block &b, const Config &cfg, int mode, long ci, int rank_
 struct Req { Idx cnt, off; bool no_offset = false; };
 static std::string rstr(const Req &r) { return "count " + istr(r.cnt) + " offset " + (r.no_offset ? std::string("{}") : istr(r.off)); }
 
-// class of a request against a window with counts w: "wrong-rank", "zero-count", "crossing", "touching", "inside"
+// class of a request against a window with counts w: "wrong-rank", "zero-count", "starting-behind-the-window" (some
+// offset strictly larger than the window extent), "crossing" (starts inside or on the far edge, ends outside),
+// "touching", "inside"
 static std::string rclass(const Idx &w, const Req &r) {
     if (r.cnt.size() != w.size() || (!r.no_offset && r.off.size() != w.size())) return "wrong-rank";
     for (size_t k = 0; k < w.size(); k++) if (r.cnt[k] == 0) return "zero-count";
+    if (!r.no_offset) for (size_t k = 0; k < w.size(); k++) if (r.off[k] > w[k]) return "starting-behind-the-window";
     bool touch = false;
     for (size_t k = 0; k < w.size(); k++) {
         size_t o = r.no_offset ? 0 : r.off[k];
@@ -466,14 +557,27 @@ static std::string rclass(const Idx &w, const Req &r) {
     return touch ? "touching" : "inside";
 }
 
-static std::vector<Req> requests_of(const Idx &w) {
+// every request with per-axis count 0..w+1 and offset 0..N (w: window extent, N: ARRAY extent): first those with all
+// offsets in 0..w, then those with at least one offset behind the window's far edge (w+1..N; zero_behind = false: of
+// these only the requests without a zero count -- used for the request PAIRS, to bound their number)
+static std::vector<Req> requests_of(const Idx &w, const Idx &aext, bool zero_behind = true) {
     std::vector<Req> v;
-    Idx clim, olim;
+    Idx clim, olim, alim;
     for (size_t x : w) { clim.push_back(x + 2); olim.push_back(x + 1); }
+    for (size_t x : aext) alim.push_back(x + 1);
     Idx c(w.size(), 0);
     do {
         Idx o(w.size(), 0);
         do { Req r; r.cnt = c; r.off = o; v.push_back(r); } while (next(o, olim));
+    } while (next(c, clim));
+    c.assign(w.size(), 0);
+    do {
+        Idx o(w.size(), 0);
+        do {
+            bool behind = false;
+            for (size_t k = 0; k < w.size(); k++) if (o[k] > w[k]) behind = true;
+            if (behind && (zero_behind || !empty_box(c))) { Req r; r.cnt = c; r.off = o; v.push_back(r); }
+        } while (next(o, alim));
     } while (next(c, clim));
     return v;
 }
@@ -550,7 +654,8 @@ template <size_t R> struct Grid {
     void op(DataView &v, int opk, const Idx &worig, const Idx &w, const Req &r) {
         static const char *SITE[] = {"DataView::getData(raw)", "DataView::getData(multi_array)", "DataView::setData(raw)", "DataView::setData(multi_array)"};
         const std::string rc = rclass(w, r) + (r.no_offset ? ", offset omitted" : "");
-        const bool wrong_rank = rc.compare(0, 10, "wrong-rank") == 0, zero = rc.compare(0, 10, "zero-count") == 0, crossing = rc.compare(0, 8, "crossing") == 0;
+        const bool wrong_rank = rc.compare(0, 10, "wrong-rank") == 0, zero = rc.compare(0, 10, "zero-count") == 0,
+                   crossing = rc.compare(0, 8, "crossing") == 0 || rc.compare(0, 26, "starting-behind-the-window") == 0;
         const bool valid = !wrong_rank && !zero && !crossing;
         const std::string site = SITE[opk];
         auto ctx = [&]() { return aname + ", window offset " + istr(worig) + " count " + istr(w) + ", " + site + " " + rstr(r); };
@@ -635,7 +740,7 @@ template <size_t R> struct Grid {
             if (!e2.empty() || !shape_ok || got != want)
                 vf::violation("C17|DataView::getData(whole view)|window inside the array|read returns the cells of the window|" + (e2.empty() ? std::string("wrong cells") : e2), ctx + ": got " + dvec(got) + " expected " + dvec(want) + " " + what);
         }
-        std::vector<Req> reqs = requests_of(w), extra = extra_requests_of(w);
+        std::vector<Req> reqs = requests_of(w, ext), extra = extra_requests_of(w);
         for (const Req &r : reqs) {
             op(*v, 0, worig, w, r); op(*v, 2, worig, w, r);
             if (typed_too) { op(*v, 1, worig, w, r); op(*v, 3, worig, w, r); }
@@ -649,10 +754,11 @@ template <size_t R> struct Grid {
         }
     }
 
-    // pairs on one window: write request A (fixed count vector, every offset), then read request B (every request)
+    // pairs on one window: write request A (fixed count vector, every offset), then read request B (every request);
+    // requests: count 0..w+1, offset 0..w, and the requests with a non-zero count and an offset behind the window (up to N)
     void pair_case(const Idx &worig, const Idx &w, const Idx &acnt) {
         DataView v(da, nds(w), nds(worig));
-        std::vector<Req> reqs = requests_of(w);
+        std::vector<Req> reqs = requests_of(w, ext, false);
         size_t ia = 0;
         for (const Req &a : reqs) {
             if (a.cnt != acnt) continue;
@@ -785,7 +891,7 @@ int main(int argc, char **argv) {
         if (!vf::take_case(ci)) continue;
         vf::case_desc("DataView requests: array [3,4], window offset " + istr(w.first) + " count " + istr(w.second));
         need2(); g2.window_case(w.first, w.second, true);
-        if (ci % 7 == 0) vf::sample("{\"part\":\"b\",\"array\":[3,4],\"window_offset\":" + istr(w.first) + ",\"window_count\":" + istr(w.second) + ",\"requests\":" + std::to_string(requests_of(w.second).size() + extra_requests_of(w.second).size()) + ",\"ops\":\"getData/setData x raw/multi_array\"}", 6);
+        if (ci % 7 == 0) vf::sample("{\"part\":\"b\",\"array\":[3,4],\"window_offset\":" + istr(w.first) + ",\"window_count\":" + istr(w.second) + ",\"requests\":" + std::to_string(requests_of(w.second, g2.ext).size() + extra_requests_of(w.second).size()) + ",\"ops\":\"getData/setData x raw/multi_array\"}", 6);
     }
     for (const auto &w : win3) {
         long ci = idx++;
@@ -807,6 +913,38 @@ int main(int argc, char **argv) {
             need2(); g2.pair_case(w.first, w.second, ac);
             if (vf::deadline_hit()) break;
         } while (next(ac, clim));
+    }
+
+    // ------------------------------------------------------------------ part (a), appended: start/end of different lengths
+    {
+        // the configurations of the grid above (rank 1 and 2: all; rank 3: quick every fourth, thorough all) ...
+        std::vector<std::pair<Config, int>> mplans;
+        size_t r3seen = 0;
+        for (const auto &pl : plans) {
+            if (pl.first.ext.size() == 3 && !thorough && r3seen++ % 4 != 1) continue;
+            mplans.push_back(pl);
+        }
+        // ... and sampled axes with negative offsets (-0.75, -3) and an offset beyond the length of the axis (7)
+        const double ivs[] = {1.0, 0.3, 2.5};
+        const std::vector<size_t> exts1 = thorough ? std::vector<size_t>{1, 2, 3, 4, 5} : std::vector<size_t>{1, 2, 5};
+        size_t n = 0;
+        for (double iv : ivs) for (int o = 3; o < 6; o++) for (size_t e1 : exts1) { mplans.push_back(std::make_pair(Config{{Desc{K_SAMPLED, iv, o, 0}}, {e1}, n % 2 == 1}, 1)); n++; }
+        const Desc neg1{K_SAMPLED, 1.0, 4, 0}, neg2{K_SAMPLED, 0.3, 3, 0}, neg3{K_SAMPLED, 2.5, 3, 0}, far{K_SAMPLED, 0.5, 5, 0}, pos{K_SAMPLED, 0.5, 2, 0},
+                   rng{K_RANGE, 0, 0, 1}, set0{K_SET, 0, 0, 0}, set1{K_SET, 0, 0, 1}, frm{K_FRAME, 0, 0, 0};
+        const std::vector<std::vector<Desc>> two = {{neg1, rng}, {rng, neg2}, {neg3, pos}, {pos, neg1}, {set0, neg2}, {neg1, frm}, {far, neg3}, {set1, far}};
+        const Idx exts2[] = {{3, 4}, {5, 2}, {1, 5}, {4, 1}, {2, 3}};
+        for (size_t i = 0; i < two.size(); i++) mplans.push_back(std::make_pair(Config{two[i], exts2[i % 5], i % 2 == 1}, 2));
+        const std::vector<std::vector<Desc>> three = {{neg1, rng, set0}, {rng, neg2, pos}, {frm, set1, neg3}, {neg2, neg1, far}, {pos, far, neg1}, {set0, neg3, rng}};
+        const Idx exts3[] = {{2, 3, 2}, {3, 1, 4}, {1, 2, 5}, {5, 2, 1}, {2, 2, 3}};
+        for (size_t i = 0; i < three.size(); i++) mplans.push_back(std::make_pair(Config{three[i], exts3[i % 5], i % 2 == 0}, thorough ? 4 : 3));
+        for (const auto &pl : mplans)
+            for (int mode = 0; mode < 3; mode++) {
+                long ci = idx++;
+                if (!vf::take_case(ci)) continue;
+                vf::case_desc("dataSlice grid, start and end vectors of different lengths: " + cname(pl.first) + ", " + MODE[mode]);
+                slice_case(b, pl.first, mode, ci, pl.second, true, thorough);
+                if (vf::deadline_hit()) break;
+            }
     }
 
     f.close();
